@@ -8,9 +8,12 @@ package pause
 // not proved: sync.Map is outside the modelled subset.
 
 //@ func Subscribe
+//@   property C14
 //@   opaque
+//@   sweep assert
 //@   modifies nothing
 //@   ensures result != nil && fresh(result) && result.PauseCh != nil && result.ResumeCh != nil
+//@   assert Store(subscribers)#1: [signal-kept-handshake-synchronous] @C14 cap(chans.PauseCh) >= 1 && cap(chans.ResumeCh) == 0 // C14: Subscribe: a pause signal sent while the worker is busy is kept for it (buffered), and the worker's resume handshake completes only when Resume receives it (unbuffered)
 
 //@ func Unsubscribe
 //@   property C14
